@@ -3,6 +3,7 @@
 package c04
 
 import (
+	"strings"
 	"context"
 	"encoding/binary"
 	"encoding/json"
@@ -286,13 +287,19 @@ func runCase(c Case) outcome {
 	go func() { wg.Wait(); close(done) }()
 	tick := time.NewTicker(25 * time.Millisecond)
 	defer tick.Stop()
+	idleLimit := 250 * time.Millisecond
+	if c.M.Kind == "none" {
+		// an unmodified exchange never blocks: a pause is the machine being busy (FS authentication touches the
+		// disk), so it gets the whole time limit
+		idleLimit = 2900 * time.Millisecond
+	}
 loop:
 	for {
 		select {
 		case <-done:
 			break loop
 		case <-tick.C:
-			if time.Since(time.Unix(0, atomic.LoadInt64(&rs.last))) > 250*time.Millisecond {
+			if time.Since(time.Unix(0, atomic.LoadInt64(&rs.last))) > idleLimit {
 				o.idle = true
 				cancel()
 				_ = cc.Close()
@@ -338,13 +345,20 @@ func TestC04Tamper(t *testing.T) {
 	for _, sh := range shapes {
 		c := Case{Shape: sh, M: Mut{Kind: "none"}}
 		var o outcome
-		for try := 0; try < 3; try++ {
+		for try := 0; try < 5; try++ {
 			o = runCase(c)
 			if judge(c, o) == "" {
 				break
 			}
 		}
 		ev.Case("baseline:"+sh, "")
+		timedOut := func(err error) bool {
+			return err != nil && (strings.Contains(err.Error(), "context canceled") || strings.Contains(err.Error(), "deadline exceeded"))
+		}
+		if v := judge(c, o); v != "" && (o.idle || timedOut(o.cErr) || timedOut(o.sErr)) {
+			// five unmodified runs in a row ran into the harness's own time limit: the machine is too busy to say anything
+			t.Fatalf("C04 harness: inconclusive, the unmodified %s handshake timed out five times: %s", sh, v)
+		}
 		if v := judge(c, o); v != "" {
 			kit.Violation("C04", v, c)
 			t.Fatalf("C04 violated: %s", v)
